@@ -229,6 +229,26 @@ def gen_route(rng):
     return sc
 
 
+def gen_fpbjsq(rng):
+    """flexible process-based routing whose choices are made by join-shortest-queue / load balancing: the choice must
+    be minimal among the *current* populations of the current set (of this simulation)"""
+    N = 3
+    sc = gen_tandem(rng, N=N, K=1)
+    for nd in sc["nodes"]:
+        nd["c"] = rng.choice([1, 1, 2])
+        nd["qcap"] = INF
+    sc["syscap"] = INF
+    routes = []
+    for _ in range(rng.randint(1, 3)):
+        L = rng.randint(1, 3)
+        routes.append([sorted(rng.sample(range(1, N + 1), rng.randint(2, N))) for _ in range(L)])
+    sc["route"] = [{"kind": "fpb", "routes": routes, "rule": rng.choice(["any", "all"]), "choice": rng.choice(["jsq", "lb"])}]
+    sc["arrS"] = [[samples(rng, 1, 2, 2)], [[]], [[]]]
+    sc["svcS"] = [[samples(rng, 1, 6, 3)] for _ in range(N)]
+    sc["T"] = rng.randint(15, 35)
+    return sc
+
+
 def rand_sched(rng, pre):
     m = rng.randint(1, 3)
     nums = [rng.choice([0, 1, 1, 2, 2, 3]) for _ in range(m)]
@@ -1079,6 +1099,7 @@ def gen_stopcount(rng):
 
 
 FAMILIES = {
+    "fpbjsq": gen_fpbjsq,
     "exactT": gen_exactT,
     "slotpreblock": gen_slotpreblock,
     "slotblock": gen_slotblock,
